@@ -154,27 +154,67 @@ def run(tier, t0):
                     res.violation('C06.4', 'C06.4|%s' % m.group(1), wf, t.get('line'), 'the %s rule is not required (`?`) before anything is set' % m.group(1))
         if keys != {'Cfa', 'Ra'}:
             res.violation('C06.4', 'C06.4|keys', wf, wf.line, 'walk_with_stack_cfi removes %s from the rule map (expected Cfa and Ra)' % sorted(keys))
-        # C06.5
+        # C06.5 each remaining rule ends in exactly one of: the register set from the value, or the register cleared - also when
+        # the value cannot be stored (set_caller_register returns None)
         loop_e = by.get('expr', [])
         sets = [(b, t) for b, t in wf.calls() if wf.callee_decl(t).endswith('FrameWalker::set_caller_register')]
         clears = [(b, t) for b, t in wf.calls() if wf.callee_decl(t).endswith('FrameWalker::clear_caller_register')]
+        # the set may sit in a closure handed to Option::and_then on the evaluation result
+        set_cl = None
+        for g in c.fns:
+            if re.match(re.escape(wf.qual) + r'::\{closure#\d+\}$', g.qual):
+                cs = [(b, t) for b, t in g.calls() if g.callee_decl(t).endswith('FrameWalker::set_caller_register')]
+                if cs:
+                    set_cl = (g, cs)
         res.rule('C06.5', 1)
-        if len(loop_e) != 1 or len(sets) != 1 or len(clears) != 1:
-            res.violation('C06.5', 'C06.5|shape', wf, wf.line, 'expected one eval / set_caller_register / clear_caller_register in the rule loop, found %d/%d/%d' % (len(loop_e), len(sets), len(clears)))
+        if len(loop_e) != 1 or len(clears) != 1 or (len(sets) + (1 if set_cl else 0)) != 1:
+            res.violation('C06.5', 'C06.5|shape', wf, wf.line, 'expected one eval / set_caller_register / clear_caller_register in the rule loop, found %d/%d/%d' % (len(loop_e), len(sets) + (1 if set_cl else 0), len(clears)))
         else:
-            eb = loop_e[0][0]
-            def disc(b):
-                for r, g, s in panics.dominating_facts(wf, b):
-                    if r[0] == 'switch' and r[1][0] == 'discr' and is_call(r[1][1], W + 'eval_cfi_expr') and show(r[1][1][2]) == 'expr':
-                        return r[2]
-                return None
             res.rule('C06.5', 1)
-            if disc(sets[0][0]) != 1 or show(wf.operand_tree(sets[0][1]['args'][2])) != 'val' or show(wf.operand_tree(sets[0][1]['args'][1])) != 'reg':
-                res.violation('C06.5', 'C06.5|set', wf, sets[0][1].get('line'), 'set_caller_register(reg, val) is not on the Some edge of the rule evaluation')
-            if disc(clears[0][0]) != 0 or show(wf.operand_tree(clears[0][1]['args'][1])) != 'reg':
-                res.violation('C06.5', 'C06.5|clear', wf, clears[0][1].get('line'), 'clear_caller_register(reg) is not on the None edge of the rule evaluation')
-            if 'Option::Some cfa' not in show(wf.operand_tree(loop_e[0][1]['args'][2])):
-                res.violation('C06.5', 'C06.5|cfa-arg', wf, loop_e[0][1].get('line'), 'remaining rules are not evaluated with Some(cfa)')
+            if set_cl:
+                g, cs = set_cl
+                # set = eval(..).and_then(|val| walker.set_caller_register(reg, val)); match set { Some(()) => .., None => clear }
+                rets = [show(g.expand(t2)) for (_, _, t2) in ret_assigns(g)]
+                env = closure_env(prog, g)[1]
+                a = cs[0][1]['args']
+                okc = len(cs) == 1 and len(rets) == 1 and 'set_caller_register' in rets[0] and show(g.operand_tree(a[2])) == 'val'
+                chain = None
+                for b, t in wf.calls():
+                    if wf.callee(t) == 'std::option::Option::and_then':
+                        tr = wf.expand(wf.call_tree(t))
+                        if is_call(tr[2], W + 'eval_cfi_expr') and tr[3][0] == 'closure' and tr[3][1] == g.qual:
+                            chain = (b, t, tr)
+                if not (okc and chain):
+                    res.violation('C06.5', 'C06.5|set', wf, wf.line, 'the register is not set by eval_cfi_expr(..).and_then(|val| walker.set_caller_register(reg, val))')
+                else:
+                    dest = chain[1]['dest']['l']
+
+                    def disc2(b):
+                        for r, g_, s_ in panics.dominating_facts(wf, b):
+                            if r[0] == 'switch' and r[1][0] == 'discr':
+                                x = r[1][1]
+                                if (x[0] == 'var' and x[2] == dest) or (is_call(wf.expand(x), 'Option::and_then') and 'eval_cfi_expr' in show(wf.expand(x))):
+                                    return r[2]
+                        return None
+                    if disc2(clears[0][0]) != 0 or show(wf.operand_tree(clears[0][1]['args'][1])) != 'reg':
+                        res.violation('C06.5', 'C06.5|clear', wf, clears[0][1].get('line'), 'clear_caller_register(reg) is not on the None edge of "evaluated and stored"')
+                    if 'Option::Some cfa' not in show(wf.operand_tree(loop_e[0][1]['args'][2])):
+                        res.violation('C06.5', 'C06.5|cfa-arg', wf, chain[1].get('line'), 'remaining rules are not evaluated with Some(cfa)')
+            else:
+                def disc(b):
+                    for r, g, s in panics.dominating_facts(wf, b):
+                        if r[0] == 'switch' and r[1][0] == 'discr' and is_call(r[1][1], W + 'eval_cfi_expr') and show(r[1][1][2]) == 'expr':
+                            return r[2]
+                    return None
+                if disc(sets[0][0]) != 1 or show(wf.operand_tree(sets[0][1]['args'][2])) != 'val' or show(wf.operand_tree(sets[0][1]['args'][1])) != 'reg':
+                    res.violation('C06.5', 'C06.5|set', wf, sets[0][1].get('line'), 'set_caller_register(reg, val) is not on the Some edge of the rule evaluation')
+                if disc(clears[0][0]) != 0 or show(wf.operand_tree(clears[0][1]['args'][1])) != 'reg':
+                    res.violation('C06.5', 'C06.5|clear', wf, clears[0][1].get('line'), 'clear_caller_register(reg) is not on the None edge of the rule evaluation')
+                if 'Option::Some cfa' not in show(wf.operand_tree(loop_e[0][1]['args'][2])):
+                    res.violation('C06.5', 'C06.5|cfa-arg', wf, loop_e[0][1].get('line'), 'remaining rules are not evaluated with Some(cfa)')
+                # a set whose result is dropped: a value the register cannot take leaves the callee's forwarded value in place
+                res.rule('C06.5', 1)
+                res.violation('C06.5', 'C06.5|set-fails', wf, sets[0][1].get('line'), 'the result of set_caller_register is ignored: when the value does not fit the register the caller keeps the callee\'s forwarded value, still marked valid')
     # C06.7 every `REG: EXPR` pair of the applicable records is stored; nothing but .cfa/.ra is ever removed
     res.rule('C06.7', 0, floor=3, note='rule map discipline: parse stores every pair with an unconditional insert (later overrides earlier); only .cfa / .ra are removed, by the evaluator')
     for f in c.fns:
@@ -208,6 +248,23 @@ def run(tier, t0):
                     res.violation('C06.7', 'C06.7|remove|%s' % f.qual, f, t.get('line'), 'a CFI rule is removed from the map (%s): its register would be neither set nor cleared' % key[:80])
             else:
                 res.violation('C06.7', 'C06.7|%s|%s' % (op, f.qual), f, t.get('line'), 'unexpected mutation `%s` of the CFI rule map' % op)
+    # C06.2b a `$register` value token has its `$` in front: anything else containing a `$` is a junk token and fails the rule
+    ev_ = c.fn(W + 'eval_cfi_expr')
+    if ev_ is not None:
+        res.rule('C06.2', 1)
+        regreads = []
+        for b, t in ev_.calls():
+            n = ev_.callee(t)
+            if re.search(r'core::str::(split_once|rsplit_once|find|rfind|contains|split|trim_start_matches|trim_matches)$', n):
+                a = ev_.expand(ev_.call_tree(t))
+                if len(a) > 3 and a[3] in (('int', 36), ('str', '$'), ('char', '$')):
+                    res.violation('C06.2', 'C06.2|register-token', ev_, t.get('line'), '%s(token, `$`) accepts a `$` that is not the first character of the token: `junk$rsp` would be read as the register `$rsp`' % n.split('::')[-1])
+            if n == 'core::str::strip_prefix':
+                a = ev_.expand(ev_.call_tree(t))
+                if a[3] in (('int', 36), ('str', '$'), ('char', '$')):
+                    regreads.append(b)
+        if not regreads:
+            res.violation('C06.2', 'C06.2|register-token', ev_, ev_.line, 'eval_cfi_expr has no token.strip_prefix(`$`) for `$register` values')
     # C06.9 one register, one key: `$rax:` and `rax:` name the same rule
     res.rule('C06.9', 0, floor=1, note='the map key of a register label is the label without one leading `$`, whichever spelling the record uses')
     pf = [f for f in c.fns if f.path == W + 'parse_cfi_exprs']
@@ -276,15 +333,20 @@ def run(tier, t0):
     fi = c.fn('breakpad_symbols::sym_file::parser::SymbolParser::finish_item')
     if fi is not None:
         res.rule('C06.6', 1)
-        sorts = [b for b, t in fi.calls() if re.search(r'slice::sort(_unstable)?$', fi.callee(t)) and 'add_rules' in show(fi.expand(fi.operand_tree(t['args'][0])))]
+        # stable, and by address only: records for one address must keep their file order (the later one overrides)
+        sorts = []
+        for b, t in fi.calls():
+            if re.search(r'slice::sort_by_key$', fi.callee(t)) and 'add_rules' in show(fi.expand(fi.operand_tree(t['args'][0]))):
+                cl = fi.expand(fi.operand_tree(t['args'][1]))
+                g = c.fn(cl[1]) if cl[0] == 'closure' else None
+                if g is not None and [show(g.expand(t2)) for (_, _, t2) in ret_assigns(g)] in (['rules.address'], ['(deref rules).address'], ['_2.address']):
+                    sorts.append(b)
+            elif re.search(r'slice::sort(_unstable|_unstable_by|_unstable_by_key|_by)?$', fi.callee(t)) and 'add_rules' in show(fi.expand(fi.operand_tree(t['args'][0]))):
+                res.violation('C06.6', 'C06.6|sort', fi, t.get('line'), 'add_rules is sorted with %s: records for the same address are re-ordered (by their rule text, or arbitrarily), so which one overrides depends on spelling, not on file order' % fi.callee(t).split('::')[-1])
         pushes = [b for b, t in fi.calls() if fi.callee(t) == 'std::vec::Vec::push' and 'cfi_stack_info' in show(fi.operand_tree(t['args'][0]))]
         if not sorts or not pushes or not all(any(fi.dominates(s, p) for s in sorts) for p in pushes):
-            res.violation('C06.6', 'C06.6|sort', fi, fi.line, 'finish_item does not sort add_rules before storing the STACK CFI record')
-    adt = c.adts.get('breakpad_symbols::sym_file::types::CfiRules')
+            res.violation('C06.6', 'C06.6|sort', fi, fi.line, 'finish_item does not sort add_rules by address (stable sort_by_key on `.address`) before storing the STACK CFI record')
     res.rule('C06.6', 1)
-    derived_ord = any(i['trait'] == 'std::cmp::Ord' and i['self'].endswith('CfiRules') and i['derived'] for i in c.impls)
-    if not adt or adt['variants'][0]['fields'][0][0] != 'address' or not derived_ord:
-        res.violation('C06.6', 'C06.6|ord', None, None, 'CfiRules must derive Ord with `address` as its first field', file='breakpad-symbols/src/sym_file/types.rs')
     # C06.8 the FrameWalker the evaluator runs against for real contexts answers every callback from the callee frame
     # and the stack image alone: each method is a fixed composition of calls, and the only conditions it may branch on
     # are "did the conversion / name lookup succeed".  A callback that refuses readable memory (e.g. below the callee sp)
